@@ -14,16 +14,19 @@ CFG = {
             "+/min/max on i64); the constraint solver, primitives, containers' operations, schedules, extraction, "
             "term/proof encoding are not modelled (link-only: differential S1;bad;S2 vs S1;S2 in three modes)",
         ],
-        "theorem_backed": "over the faithful declaration-state model: (a) rejected => state unchanged for every "
-                          "command whose typechecking is pure (ruleset, rule, run, check, push, pop, print-size, set, "
-                          "union, expression actions) and for single-part declarations rejected by a check that "
-                          "precedes the first mutation; (b) REFUTED in general, with the F2 witnesses (bad merge, bad "
-                          "datatype variant) and four more of the same root cause (duplicate function overwrites the "
-                          "signature, constructor with non-eq output, shadowing detected after typechecking, second "
-                          "let of a global); (c) an accepted declaration adds exactly the declared names; (d) in a "
-                          "consistent state (every typechecker-visible function has a table) no command other than a "
-                          "self-referential merge panics, accepted commands preserve consistency, rejected ones do "
-                          "not (F2) and the leftover state panics (F2/F9 replayed inside the model)",
+        "theorem_backed": "over the faithful declaration-state model (typecheck_function in the order repaired by "
+                          "repository commit 473a35e): (a) rejected => state unchanged for every command whose "
+                          "typechecking is pure (ruleset, rule, run, check, push, pop, print-size, set, union, "
+                          "expression actions) and for every single-part declaration (sort, presort instance, function, "
+                          "constructor, let) rejected by the typechecker; (b) REFUTED in general, with the remaining F2 "
+                          "witnesses: datatype with a bad later variant, declaration rejected by check_shadowing after "
+                          "typechecking recorded it, second let of a global; (c) an accepted sort / function / ruleset "
+                          "declaration adds exactly the declared names, which were undeclared before; (d) if every "
+                          "typechecker-visible function and global has a table, no command that only uses declarations "
+                          "panics; the initial state has that property, the rejected datatype of F2 breaks it and the "
+                          "leftover state panics (F2 replayed inside the model); (e) a function with a bad / "
+                          "self-referential merge (F9), a constructor with non-eq output and a duplicate declaration "
+                          "with another signature are rejected without effect",
         "link_only": "'never panics / never aborts' on the real engine (catch_unwind + child processes: testing, not a "
                      "theorem); no partial effect in term-encoding and proof mode; execution-time failures leave a "
                      "usable e-graph (sessions continue after check failures and merge conflicts and are compared)",
